@@ -1,5 +1,6 @@
 """C09 - chunk identifiers and shard routing follow the specification."""
 import itertools
+import json
 
 import numpy as np
 from hypothesis import strategies as st
@@ -218,6 +219,61 @@ def check_route(ctx, case):
                      "specification gives %r" % (es, sh, name, exp))
 
 
+# ---- routing as the accessor applies it (info -> shard file on disk) ----------
+@st.composite
+def disk_cases(draw):
+    grid = [draw(st.integers(1, 4)) for _ in range(3)]
+    return {"grid": grid, "cs": draw(st.sampled_from([1, 2, 3, 8])),
+            "bits": [draw(st.integers(0, 3)), draw(st.integers(0, 4)),
+                     draw(st.integers(0, 4))],
+            "pos": [draw(st.integers(0, g - 1)) for g in grid]}
+
+
+def check_disk(ctx, case):
+    """One chunk stored through ShardedFileAccessor with the sharding
+    parameters of the info lands in the shard file the specification names
+    (identifier -> preshift -> minishard / shard bits -> hexadecimal name)."""
+    import os
+
+    from neuroglancer_scripts.sharded_file_accessor import ShardedFileAccessor
+    from vlib import datasets as ds
+    mini, sh, pre = case["bits"]
+    grid, cs = case["grid"], case["cs"]
+    size = [g * cs for g in grid]
+    d = ctx.tmpdir("route")
+    try:
+        info = ds.make_info("uint8", 1, [ds.make_scale(
+            "s0", size, [cs] * 3, "raw",
+            sharding=ds.sharding_dict(mini, sh, pre))])
+        with open(os.path.join(d, "info"), "w") as f:
+            json.dump(info, f)
+        acc = ShardedFileAccessor(d)
+        pos = case["pos"]
+        cc = []
+        for p_ in pos:
+            cc += [p_ * cs, (p_ + 1) * cs]
+        acc.store_chunk(b"x" * cs ** 3, "s0", tuple(cc))
+        acc.close()
+        cid = morton.compressed_morton_code(pos, grid)
+        es, em = morton.route(cid, pre, mini, sh)
+        exp = morton.shard_file_stem(es, sh) + ".shard"
+        got = sorted(os.listdir(os.path.join(d, "s0")))
+        if got != [exp]:
+            ctx.fail("chunk %s of grid %s (id %d) with (minishard, shard, "
+                     "preshift) bits %s is stored in %s, the specification "
+                     "names %s" % (pos, grid, cid, case["bits"], got, exp))
+        return pre > 0 and sh > 0
+    finally:
+        ctx.rmtree(d)
+
+
+def run_disk(ctx, n):
+    def check(ctx, case):
+        nt = check_disk(ctx, case)
+        ctx.record(case, nt, ["preshift%d" % case["bits"][2]])
+    ctx.run_hypothesis(disk_cases(), check, n)
+
+
 BOUNDARY_IDS = sorted({0, 1, 2, 3, 5, 255, 256, 0xABCDEF, 2 ** 24 - 1, 2 ** 31,
                        2 ** 32 + 7, 0x0123456789ABCDEF, 2 ** 53 + 1,
                        2 ** 63, 2 ** 63 + 12345, 2 ** 64 - 1, 2 ** 64 - 2})
@@ -261,6 +317,8 @@ def run_route(ctx, n):
 
 
 def replay(ctx, case):
+    if "bits" in case:
+        return check_disk(ctx, case)
     if "ids" in case:
         check_route(ctx, case)
     elif "pos" in case:
@@ -275,5 +333,6 @@ SUBS = [
     Sub("cmc_sampled", run_big, replay, quick=3000, thorough=500000),
     Sub("routing_exhaustive", run_route_exhaustive, replay, quick=1,
         thorough=1, shards=9, sweep=True),
+    Sub("routing_on_disk", run_disk, replay, quick=400, thorough=20000),
     Sub("routing_sampled", run_route, replay, quick=3000, thorough=500000),
 ]
